@@ -38,6 +38,8 @@ pub fn mk(spec: &J) -> Option<Value> {
             Value::Timestamp(create_timestamp(p[0] as i32, p[1] as u32, p[2] as u32, p[3] as u32, p[4] as u32, p[5] as u32, p[6] as u32)?)
         }
         "iv" => ValueType::Interval.parse(a.get(1)?.as_str()?)?,
+        // an interval given in microseconds (what a difference of two timestamps yields; the text form has whole seconds only)
+        "ivus" => Value::Interval(chrono::Duration::microseconds(a.get(1)?.as_i64()?)),
         _ => return None,
     })
 }
@@ -64,7 +66,7 @@ pub fn pool_specs() -> Vec<J> {
     for i in [i64::MIN, i64::MIN + 1, -(1i64 << 53) - 1, -(1i64 << 53), -2, -1, 0, 1, 2, 3, 1 << 53, (1 << 53) + 1, i64::MAX - 1, i64::MAX] { p.push(json!(["int", i.to_string()])); }
     // NaNs with different bit patterns (quiet, negative - what sqrt(-1.0) returns on x86 -, with payload) must be one equality class
     for bits in [0xFFF8_0000_0000_0000u64, 0x7FF8_0000_0000_0001u64] { p.push(real_spec(f64::from_bits(bits))); }
-    for x in [f64::NAN, f64::NEG_INFINITY, -1e308, -9007199254740992.0, -1.5, -1.0, -0.0, 0.0, 5e-324, 0.5, 1.0, 1.5, 2.0, 3.0, 9007199254740992.0, 9.223372036854775807e18, 1e308, f64::INFINITY] { p.push(real_spec(x)); }
+    for x in [f64::NAN, f64::NEG_INFINITY, -1e308, -9007199254740992.0, -1.5, -1.0, -0.0, 0.0, 5e-324, 0.3, 0.30000000000000004, 0.3000000000000001, 0.5, 1.0, 1.5, 2.0, 3.0, 9007199254740992.0, 9.223372036854775807e18, 1e308, f64::INFINITY] { p.push(real_spec(x)); }
     p.push(json!(["bool", false])); p.push(json!(["bool", true]));
     for s in ["", "a", "A", "ab", "b", "\u{e5}", "a\u{0}", "\u{1F600}", "1", "NULL"] { p.push(json!(["text", s])); }
     p.push(json!(["arr", "int", []]));
@@ -206,7 +208,7 @@ fn check_triple(a: &Value, b: &Value, c: &Value, out: &mut Vec<Violation>, obs: 
 
 const REAL_TEXTS: &[&str] = &["0.0", "-0.0", "1.0", "1", "1.5", "-1.5", "2.5", "1e2", "100", "inf", "-inf", "NaN", "-NaN", "1e308", "5e-324", "0.1", "3",
     // integral values beyond the 64-bit and 53-bit integer ranges (distinct keys that conversions through integers would merge)
-    "1e19", "1e20", "9223372036854775808", "18446744073709551616", "-4e30", "-5e30", "9007199254740992", "9007199254740994", "-9223372036854775808", "-1e19", "1.7e308"];
+    "0.3", "0.30000000000000004", "0.3000000000000001", "1e19", "1e20", "9223372036854775808", "18446744073709551616", "-4e30", "-5e30", "9007199254740992", "9007199254740994", "-9223372036854775808", "-1e19", "1.7e308"];
 
 fn real_class_key(x: f64) -> String { if x.is_nan() { "nan".into() } else if x == 0.0 { "0".into() } else { format!("{:?}", x) } }
 
@@ -258,6 +260,9 @@ fn check_consumer(case: &J, obs: &mut Obs) -> Verdict {
                     // ascending order of the non-NaN keys
                     let keys: Vec<f64> = out.rows.iter().filter_map(|r| as_real(&r[0])).filter(|x| !x.is_nan()).collect();
                     if keys.windows(2).any(|w| !(w[0] < w[1])) { vs.push(Violation::new(format!("consumer:group|{}|order", tag), format!("group keys not ascending: {:?}", keys))); }
+                    // ... and of all keys by the engine's own order (where NaN sorts is the order's business, but it is one place)
+                    let all: Vec<Value> = out.rows.iter().filter_map(|r| as_real(&r[0])).filter_map(|x| mk(&real_spec(x))).collect();
+                    if all.windows(2).any(|w| w[0] >= w[1]) { vs.push(Violation::new(format!("consumer:group|{}|order-of-the-value-order", tag), format!("group keys not ascending by the value order: {:?}", out.rows.iter().map(|r| r[0].show()).collect::<Vec<_>>()))); }
                 }
             }
         },
@@ -276,9 +281,20 @@ fn check_consumer(case: &J, obs: &mut Obs) -> Verdict {
                 if got != Some(classes.len() as i64) { vs.push(Violation::new(format!("consumer:count-distinct|{}|count", tag), format!("values {:?}: COUNT(DISTINCT) = {:?}, reference {}", if reals.len() < 30 { reals.clone() } else { vec![] }, got, classes.len()))); }
             }
         },
-        "minmax" => match run("SELECT MIN ( r ) AS lo , MAX ( r ) AS hi FROM t") {
+        "minmax" => match run("SELECT MIN ( r ) AS lo , MAX ( r ) AS hi , PERCENTILE ( r , 0.0 ) AS p0 , PERCENTILE ( r , 1.0 ) AS p1 FROM t") {
             Err(e) => vs.push(Violation::new(format!("consumer:minmax|{}|error", tag), e)),
             Ok(out) => {
+                // with NaN among the values: the extremes of the engine's own order (the one the law checks certify as a total
+                // order and WHERE uses) - MIN / MAX / PERCENTILE 0 and 1 must be its least and greatest element, in any arrival order
+                let engine_vals: Vec<Value> = vals.iter().filter_map(|x| mk(&real_spec(*x))).collect();
+                if engine_vals.len() == vals.len() && !engine_vals.is_empty() {
+                    let lo = engine_vals.iter().min().cloned().unwrap();
+                    let hi = engine_vals.iter().max().cloned().unwrap();
+                    let key = |v: &Value| match RV::from_engine(v) { RV::Real(x) => real_class_key(x), other => other.show() };
+                    let got: Option<Vec<String>> = out.rows.first().map(|r| r.iter().map(|c| as_real(c).map(real_class_key).unwrap_or_else(|| c.show())).collect());
+                    let want = vec![key(&lo), key(&hi), key(&lo), key(&hi)];
+                    if got.as_ref() != Some(&want) { vs.push(Violation::new(format!("consumer:minmax|{}|not-the-extremes-of-the-order", tag), format!("values {:?}: MIN, MAX, PERCENTILE 0, PERCENTILE 1 = {:?}, least and greatest by the value order = {:?}", if reals.len() < 30 { reals.clone() } else { vec![] }, got, want))); }
+                }
                 let finite: Vec<f64> = vals.iter().cloned().filter(|x| !x.is_nan()).collect();
                 if !finite.is_empty() && !vals.iter().any(|x| x.is_nan()) {
                     let lo = finite.iter().cloned().fold(f64::INFINITY, f64::min);
